@@ -7,6 +7,10 @@ hook_commits = subprocess.run(['git','-C','/repo','log','--format=%H','--grep=^v
 
 # id -> (technique, level text, level_note, design_ref)
 CLAIMED = {
+ "C08": ("rapid property-based testing of control-flow programs with instrumented iterators: an interpreter-independent trace-validity predicate plus differential testing against the definitional interpreter refjs",
+         "Function bodies from a control-flow grammar (nesting <= 5) over try/catch/finally in all three shapes, the five loop kinds with and without labels, labelled blocks, switch, with, for-of/array destructuring/spread/Array.from over instrumented iterators (without return(), next() throwing or returning a non-object, return() throwing or returning a non-object) and over generators, with break/continue/return/throw placed at random statement positions incl. inside catch and finally. Oracle 1 needs no interpreter: the logged try/finally events obey LIFO bracket discipline with every pending finally run exactly once, every iterator gets return() at most once, never after next() reported done or threw, exactly once when left before exhaustion, every started generator runs its finally exactly once. Oracle 2: the whole trace, completion value and exception equal refjs (this is what decides 'a completion from finally overrides the pending one').",
+         "Trusted: refjs for oracle 2 only. Interrupt/stack-overflow unwinding (no finally, no return()) is decided by C15 and by C01's idle-state check; generator return()/throw() driven from outside is C09.",
+         "DESIGN.md 4/C08"),
  "C12": ("rapid property-based testing over structured float64 bit patterns and boundary-constructed numeric texts against an exact math/big model of the ECMA-262 conversion algorithms",
          "Doubles (uniform bit patterns, every exponent with boundary mantissas, powers of two and ten +-2 ulp, subnormals of every bit length, the 2^53 neighbourhood, 17-digit shortest forms) x digit counts 0..100 x radices 2..36 are formatted with String, toFixed, toExponential, toPrecision and toString(radix) and compared with an exact big-integer model (shortest and closest digits, half-up rounding from the exact binary value, ECMAScript layout, radix parse-back). Decimal midpoints of adjacent doubles (+-1 unit, up to 800 digits), hex/octal/binary midpoints (up to 300 digits) and exact ties are pushed through literals, Number(), unary plus, parseFloat, parseInt and JSON.parse and must give the nearest double, ties to even.",
          "Trusted: math/big; strconv and big.Float only cross-check the model (a disagreement between them is a harness error). The spec's permission to zero digits after the 20th applies only to parseInt radix 10; one ulp is accepted for non-power-of-two radices above 53 bits. 08/09 literal forms are excluded. Whether Grisu or the bignum fallback ran is not observable; subnormal and 17-digit inputs are oversampled instead.",
